@@ -97,9 +97,23 @@ func (br *xmpReader) readAttribute(tag *Tag) (attr Attribute, err error) {
 	attr.parent = tag.self
 
 	// Attribute Name
-	if buf, err = br.Peek(maxTagHeaderSize); err != nil {
-		err = errors.Wrap(err, "Attr")
-		return
+	for {
+		if buf, err = br.Peek(maxTagHeaderSize); err != nil {
+			err = errors.Wrap(err, "Attr")
+			return
+		}
+		// white space before the name is dropped so that the name is within the look-ahead
+		var w int
+		for w < len(buf) && isWhiteSpace(buf[w]) {
+			w++
+		}
+		if w == 0 {
+			break
+		}
+		if _, err = br.Discard(w); err != nil {
+			err = errors.Wrap(err, "Attr (discard)")
+			return
+		}
 	}
 
 	var d int
